@@ -567,6 +567,18 @@ be_filter_eventcb(struct bufferevent *underlying, short what, void *me_)
 	// If our refcount is > 0
 	if (bufev_private->refcnt > 0) {
 
+		if ((what & BEV_EVENT_EOF) && (what & BEV_EVENT_READING)) {
+			/* The underlying stream has ended.  Whatever it still
+			 * holds must reach our input before the EOF does. */
+			int processed_any = 0;
+			bevf->got_eof = 1;
+			if (bev->enabled & EV_READ)
+				be_filter_process_input(bevf, BEV_FINISHED,
+				    &processed_any);
+			if (processed_any)
+				bufferevent_trigger_nolock_(bev, EV_READ, 0);
+		}
+
 		/* All we can really to is tell our own eventcb. */
 		bufferevent_run_eventcb_(bev, what, 0);
 	}
